@@ -63,6 +63,19 @@ def run_pixel(W, cfg):
             W.ob_close(f'output = circular convolution with the separable pixel sinc [{i},{j}]', out[i, j], conv[i][j], 1e-9)
     # total kept: every output sample equals the convolution sample (above) and the convolution keeps the total (unit DC gain)
     W.ob_close('the convolution keeps the total signal', W.sum(conv[i][j] for i in range(shp[0]) for j in range(shp[1])), W.sum(img[i, j] for i in range(shp[0]) for j in range(shp[1])), 1e-9)
+    # another oversampling factor on the same frame shape in the same process
+    os2 = 3 if cfg['os'] != 3 else 2
+    K2 = _kernel_pixel(shp, os2)
+    conv2 = _circ_conv(W, img, K2)
+    outb = lt.detector.pixel(img, os2)
+    if W.sym:
+        for i in range(shp[0]):
+            for j in range(shp[1]):
+                W.assume(conv2[i][j] >= 0)
+    if W.sym or all(conv2[i][j] >= 0 for i in range(shp[0]) for j in range(shp[1])):
+        for i in range(shp[0]):
+            for j in range(shp[1]):
+                W.ob_close(f'second call, oversample {os2}: output = convolution [{i},{j}]', outb[i, j], conv2[i][j], 1e-9)
     # commutes with circular translation
     rolled = W.np.roll(img, (1, 1), axis=(0, 1)) if shp != (1, 1) else img
     out2 = lt.detector.pixel(rolled, cfg['os'])
